@@ -35,6 +35,7 @@ def obs_program(params):
     # "still registered?" test and the call of the handler is only possible if those two lines are yield points
     if params.get("line_yields"):
         detsched.enable_line_yields([getattr(api.BaseObserver, n) for n in params["line_yields"]])
+    slow = {int(k): v for k, v in params.get("slow", {}).items()}
     em_asc = params.get("em_order", "asc") == "asc"
     h_asc = params.get("h_order", "asc") == "asc"
     watches_used = sorted({op[-1] for ops in list(threads.values()) + [o for d in scripts.values() for o in d.values()]
@@ -129,6 +130,10 @@ def obs_program(params):
                     val = vals.setdefault((w, v), len(vals) + 1)
                     s.log("queued", w=w, ev=evid, val=val, em=self.eid)
                     self.queue_event(ev)
+                elif slow.get(wid(self.watch)):
+                    # an emitter that is slow to wind down: once told to stop it takes a long time (virtual) to return
+                    self.stopped_event.wait()
+                    w_.shims["time"].sleep(slow[wid(self.watch)])
                 else:
                     self.stopped_event.wait()
 
